@@ -586,6 +586,8 @@ class EngineBase:
         if d.vkind == 'list':
             return DictEntryList(d, kt, d.velem)
         t = z3.Select(d.vals, kt)
+        if d.vkind == 'row':
+            return Opaque('row')
         if d.vkind == 'num':
             v = Sym('num', t)
         elif d.vkind == 'bool':
@@ -638,6 +640,11 @@ class EngineBase:
             if isinstance(v, TupleV):
                 d.vkind = 'pair'
                 self.note_elem(d_as_list(d), v)
+            if isinstance(v, (DictObj, Record)):
+                # a dict of dicts (table rows): only the key set is modelled, the row is an opaque object
+                d.vkind = 'row'
+                d.vals = z3.Store(d.vals, kt, z3.Int(fresh_name('row')))
+                return
             d.vals = z3.Store(d.vals, kt, self.as_int_term(v))
             if isinstance(v, Sym) and v.kind == 'ref' and v.cls and d.vcls is None:
                 d.vcls = v.cls
